@@ -49,7 +49,7 @@ def coords(shape):
     r = [Fr(1) + Fr(i, 2) for i in range(nr)]
     q = [TWO_PI * Fr(i, nq) for i in range(nq)]
     z = [Fr(1, 2) * k for k in range(nz)]
-    v = [Fr(-2) + Fr(3 * i, 2) for i in range(nv)]
+    v = [Fr(-3, 2) + Fr(3 * i, 2) for i in range(nv)]          # contains v = 0: the foot of that characteristic is a z node
     return r, q, z, v
 
 
